@@ -101,9 +101,22 @@ DOCUMENTED_GENERATION_ERRORS = ("no valid start or end positions", "larger sampl
 def discard_if_unsatisfiable(e: BaseException, sig: str):
     """generation may legitimately refuse a configuration whose endpoint options cannot be met (documented ValueError messages):
     those cases are discarded and counted. Any other ValueError from a legitimate request is a violation, not a discard."""
-    if isinstance(e, ValueError) and any(s in str(e) for s in DOCUMENTED_GENERATION_ERRORS):
+    if isinstance(e, ValueError) and (any(s in str(e) for s in DOCUMENTED_GENERATION_ERRORS) or _raised_while_drawing_endpoints(e)):
         raise Discard() from e
     raise Violation(f"{sig}:raises:{type(e).__name__}", _short(e)) from e
+
+
+def _raised_while_drawing_endpoints(e: BaseException) -> bool:
+    """the wording of the refusal is not part of any property: a ValueError whose innermost library frame is the endpoint-drawing
+    step itself (not the solver or anything else it calls inside the library) is the documented "cannot place endpoints" outcome"""
+    lib_root = os.path.join(os.path.realpath(os.environ.get("VERIF_REPO", "/repo")), "maze_dataset") + os.sep
+    inner = None
+    tb = e.__traceback__
+    while tb is not None:
+        if os.path.realpath(tb.tb_frame.f_code.co_filename).startswith(lib_root):
+            inner = tb.tb_frame.f_code.co_name
+        tb = tb.tb_next
+    return inner == "generate_random_path"
 
 
 def scribble(x) -> None:
